@@ -278,7 +278,11 @@ func (w *world) faultTrial(n int) {
 		}
 		orig := st.objects[key].body
 		ops := []string{"flip", "truncate", "extend", "extend-huge", "drop", "swap", "copy-over-peer", "copy-to-new-key", "rename", "rewrite", "flip-bit"}
-		op = ops[tp.Intn(len(ops))]
+		opw := []int{2, 2, 2, 2, 2, 2, 2, 1, 2, 0, 2}
+		if class != "chunk" {
+			opw[9] = 5 // well-formed semantic rewrites only exist for manifests and markers
+		}
+		op = ops[tp.Weighted(opw)]
 		peer := func() string {
 			ps := ks
 			if class == "archive" {
